@@ -267,6 +267,7 @@ func checkC04(c *Ctx, r *Result, tier string) {
 	c04Try(c, r)
 	c04Loop(c, r)
 	c04LoopSignals(c, r)
+	c04MatchedStaysMatched(c, r)
 }
 
 // c04Try: the Eval method which tests a child's Name against "finally".
